@@ -803,8 +803,9 @@ def domain_labels(case):
 # ----------------------------------------------------------------- strategies
 
 def row_strategy(fam, num_domains=0):
-  x = st.integers(-8, 8)
-  t = st.integers(0, 2) if fam == 'ce' else st.integers(-32, 32)
+  # sampled_from is uniform; st.integers would over-produce 0 and the bounds.
+  x = st.sampled_from(list(range(-8, 9)))
+  t = st.integers(0, 2) if fam == 'ce' else st.sampled_from(list(range(-32, 33)))
   parts = [x, x, t]
   zero = [0, 0, 0]
   if num_domains:
@@ -827,7 +828,7 @@ def params_strategy(fam):
       return st.just([int(v) for v in center_vec(fam) * 8])
     if style == 'big':
       return st.lists(st.sampled_from([-16, -12, -8, 8, 12, 16]), min_size=n, max_size=n)
-    return st.lists(st.integers(-16, 16), min_size=n, max_size=n)
+    return st.lists(st.sampled_from(list(range(-16, 17))), min_size=n, max_size=n)
   return st.sampled_from(['big', 'generic', 'generic', 'big', 'generic', 'zero', 'generic',
                           'centre']).flatmap(build)
 
@@ -887,8 +888,9 @@ def grad_case(draw, tier):
   if style == 'scattered':
     # The unpadded comparison call compiles once per number of real rows:
     # prefer counts from the size menu.
-    n = draw(st.sampled_from([s for s in SIZES[tier] if s <= size] * 2 +
-                             list(range(1, size + 1))))
+    hi = max(1, size - 1)
+    n = draw(st.sampled_from([s for s in SIZES[tier] if s <= hi] * 2 +
+                             list(range(1, hi + 1))))
     slots = sorted(draw(st.permutations(list(range(size))))[:n])
     mask = [int(j in slots) for j in range(size)]
   elif style == 'prefix':
@@ -992,7 +994,7 @@ CHECKS = [
               'maximization_step assignment for every (batch_size, buckets)'),
     Check(name='mime_grads', run=run_mime_grads, strategy=mime_case,
           labels=dataset_labels, nontrivial=dataset_nontrivial,
-          budget={'quick': 192, 'thorough': 6000}, time_share=3.0,
+          budget={'quick': 192, 'thorough': 6000}, time_share=3.5,
           doc='Mime gradient pass: per-client (sum of grad*num, num) and the '
               'full-batch server gradient of mime / mime_lite for every geometry'),
     Check(name='domain_metrics', run=run_domain_metrics, strategy=domain_case,
